@@ -175,6 +175,11 @@ def handle : List Sexp → Option String
       let tags := triples n a
       let sub := a.drop (3 * n)
       some (out (GenK.wrapTags (indefOk == "1") (ine == "1") tags (dm == "1") sub (ic == "1") (io == "1")))
+  | .atom "KBERBOOLDEC" :: args => do
+      let a ← intArgs args
+      some (match GenK.intDecode a >>= GenK.berBoolDec with
+        | .ok v => s!"ok {v}"
+        | .error e => "err " ++ errName e)
   | .atom "KNULLDEC" :: .atom ns :: args => do
       let a ← intArgs args
       some (match GenK.nullDecode (ns == "1") a a.length with
